@@ -71,7 +71,7 @@ def gen_case(r, tier, long_blocks=0):
             if pre:
                 ops.append(stream_op(r, pre))
             target = long_blocks * 16
-            gap = r.choice([0, 1, 15, 16, 17, 40, 100])
+            gap = r.choice([0, 1, 15, 16, 16, 17, 32, 40, 48, 100, 160])
             big = target - pre - gap
             half = r.range(1, big - 1)
             if r.chance(1, 2):
@@ -79,6 +79,9 @@ def gen_case(r, tier, long_blocks=0):
             else:
                 ops.append("streamzero %d" % half)
                 ops.append("streamzero %d" % (big - half))
+            if gap >= 16 and r.chance(3, 4):
+                # ONE call whose whole blocks straddle the boundary (the bulk path must carry into the next counter byte)
+                ops.append(stream_op(r, gap + r.choice([16, 17, 32, 33, 64, 100])))
             for _ in range(r.range(2, 6)):
                 ops.append(stream_op(r, r.choice([0, 1, 15, 16, 17, 31, 32, 33, 48, 100])))
         else:
@@ -101,7 +104,7 @@ def gen_aes(rng, tier, mult):
             lb = 256
         elif ci % 250 == 3:
             lb = 4096
-        elif (tier != "quick" and ci % 150 == 5) or (tier == "quick" and ci % 500 == 5):
+        elif (tier != "quick" and ci % 150 == 5) or (tier == "quick" and ci % 125 == 5):
             lb = 65536
         elif tier != "quick" and ci % 1000 == 7:
             lb = 131072
